@@ -136,7 +136,16 @@ fn main() {
         CASE_INDEX.store(idx, std::sync::atomic::Ordering::Relaxed);
         CASE_START_CPU_MS.store(cpu_ms().max(1), std::sync::atomic::Ordering::Relaxed);
         let before = obs.violations.len();
+        let t_case = cpu_ms();
         let r = catch(|| mon.run_case(idx, &mut obs));
+        let took = cpu_ms().saturating_sub(t_case);
+        if took > 1000 {
+            obs.count("cases_over_1s_cpu");
+            if std::env::var("XV_REPORT_SLOW").is_ok() {
+                eprintln!("xv: slow case {} took {} ms: {}", idx, took, mon.describe(idx).chars().take(300).collect::<String>());
+            }
+        }
+        obs.maxi("max_case_cpu_ms", took);
         if let Err((msg, loc)) = r {
             // a panic that escaped the monitor's own guards: xeh code panicked outside a guarded
             // call or the harness itself is broken; the location tells which.
